@@ -25,8 +25,6 @@ pub const SEARCH_ORIGIN_CAP: usize = 8;
 /// each seed's cases are dealt round-robin to this many long-lived children
 /// (a fresh process pays seconds for the first touch of large blocks, see alloc.rs)
 pub const LANES: usize = 16;
-/// user-CPU limit per case; large because memory first-touch stalls are billed as user time here
-pub const CASE_CPU_LIMIT_MS: u64 = 10_000;
 
 // ---------------------------------------------------------------------------
 // seeds
@@ -52,6 +50,13 @@ fn history(name: &str, db: &mut DbFile) {
         }};
     }
     if name == "empty" {
+        return;
+    }
+    if name == "mini" {
+        // no alias, no index (each of them adds several KiB of tables): one node and one
+        // edge with inline and out-of-line values
+        m!(QueryBuilder::insert().nodes().values([[("s", "a string longer than fifteen bytes").into(), ("i", -1).into()], [("v", vec![1_i64, -2]).into(), ("f", 1.5).into()]]).query());
+        m!(QueryBuilder::insert().edges().from(1).to(2).values([[("b", vec![9_u8; 17]).into(), ("t", vec!["a", "b"]).into()]]).query());
         return;
     }
     if name == "tiny" {
@@ -117,7 +122,7 @@ fn valid_wal(data: &[u8]) -> Vec<u8> {
 }
 
 pub fn seed_names(tier: Tier) -> Vec<&'static str> {
-    tier.pick(vec!["tiny"], vec!["tiny", "empty", "small", "rich", "optimized", "wide"])
+    tier.pick(vec!["mini"], vec!["mini", "empty", "tiny", "small", "rich", "optimized", "wide"])
 }
 
 pub fn make_seeds(tier: Tier) -> Vec<Seed> {
@@ -583,7 +588,6 @@ pub fn run(args: &Args) -> i32 {
         return 0;
     }
     let report = Report::new(args, "fault_enumeration");
-    crate::child::set_wall_limit_ms(CASE_CPU_LIMIT_MS);
     let unconfirmed_hangs = AtomicU64::new(0);
     let seeds = make_seeds(args.tier);
     let scratch = Scratch::new("c07p");
@@ -669,6 +673,9 @@ pub fn run(args: &Args) -> i32 {
     });
     // confirm the representative of each class alone in a fresh child
     for (sig, _, _, rep) in coll.signatures() {
+        if sig.contains("|hang|") {
+            continue; // every hang was already repeated alone when it was seen
+        }
         let name = rep["seed"].as_str().unwrap_or("");
         let idx = rep["case"].as_u64().unwrap_or(0) as usize;
         let mut got = None;
@@ -716,7 +723,6 @@ fn replay(file: &str) -> i32 {
     let idx = r["case"].as_u64().unwrap_or(0) as usize;
     let tier = if r["tier"].as_str() == Some("thorough") { Tier::Thorough } else { Tier::Quick };
     crate::child::set_tier(tier);
-    crate::child::set_wall_limit_ms(CASE_CPU_LIMIT_MS);
     let seeds = make_seeds(Tier::Thorough);
     let Some(seed) = seeds.iter().find(|s| s.name == name) else { engine::machinery_failure(&format!("unknown seed {name}")) };
     let scratch = Scratch::new("c07p");
